@@ -1,50 +1,61 @@
 ---------------------------- MODULE NumericTrace ----------------------------
 (***************************************************************************)
-(* C05 - integer arithmetic is exact and comparisons agree with            *)
-(* mathematics.  A register machine: operator events name the registers    *)
-(* they read; the frame condition is that every register except the        *)
-(* destination is unchanged after the call (operands are never altered).   *)
-(* Each operator is given by its defining relation on exact values.        *)
+(* C05 acceptor.  One event per operator application: the operands were    *)
+(* stored in variables, the operator applied to the variables, and the     *)
+(* variables re-read afterwards (a2, b2): the frame condition "operators   *)
+(* never alter their operands".  Returns "" or the reason of rejection.    *)
 (***************************************************************************)
-EXTENDS BigInt, TLC, Json, FiniteSets
+EXTENDS Numeric, TLC, Json
 CONSTANT TraceFile
 E == ndJsonDeserialize(TraceFile)
 VARIABLES l, bad, seen
 Init == l = 1 /\ bad = <<>> /\ seen = 0
-
-DivOK(a, b, q, r, mode) ==
-  /\ Add(Mul(q, b), r) = a
-  /\ MCmp(r.m, b.m) < 0
-  /\ CASE mode = "floor"    -> r.s = 0 \/ r.s = b.s
-       [] mode = "ceiling"  -> r.s = 0 \/ r.s = -b.s
-       [] mode = "truncate" -> r.s = 0 \/ r.s = a.s
-       [] OTHER -> TRUE
+IntOps == {"floor", "ceiling", "truncate", "round", "mod", "rem", "gcd", "lcm", "logand", "logior", "logxor",
+           "ash", "expt", "isqrt"}
+BoolOps == {"<", "<=", ">", ">=", "=", "/=", "zerop", "plusp", "minusp"}
+Sign(x) == x.n.s
+Holds(op, c) == CASE op = "<" -> c < 0 [] op = "<=" -> c <= 0 [] op = ">" -> c > 0 [] op = ">=" -> c >= 0
+                  [] op = "=" -> c = 0 [] op = "/=" -> c # 0
 Check(e) ==
-  LET a == e.a  b == e.b  r == e.r  r2 == e.r2 IN
+  LET a == e.a  b == e.b  r == e.r IN
   IF e.a2 # a \/ e.b2 # b THEN "operand-changed"
   ELSE IF e.st # "ok" THEN "failed:" \o e.st
-  ELSE IF ~WellFormed(r) \/ ~WellFormed(r2) THEN "malformed"
-  ELSE CASE e.op = "+" -> IF r = Add(a, b) THEN "" ELSE "wrong"
-         [] e.op = "-" -> IF Add(r, b) = a THEN "" ELSE "wrong"
-         [] e.op = "*" -> IF r = Mul(a, b) THEN "" ELSE "wrong"
-         [] e.op = "<" -> IF e.bool = (Cmp(a, b) < 0) THEN "" ELSE "wrong"
-         [] e.op = "<=" -> IF e.bool = (Cmp(a, b) <= 0) THEN "" ELSE "wrong"
-         [] e.op = ">" -> IF e.bool = (Cmp(a, b) > 0) THEN "" ELSE "wrong"
-         [] e.op = "=" -> IF e.bool = (Cmp(a, b) = 0) THEN "" ELSE "wrong"
-         [] e.op \in {"floor", "ceiling", "truncate"} -> IF DivOK(a, b, r, r2, e.op) THEN "" ELSE "wrong"
-         [] e.op = "mod" -> IF \E q \in {e.q} : DivOK(a, b, q, r, "floor") THEN "" ELSE "wrong"
-         [] e.op = "rem" -> IF \E q \in {e.q} : DivOK(a, b, q, r, "truncate") THEN "" ELSE "wrong"
-         [] e.op = "abs" -> IF r = Abs(a) THEN "" ELSE "wrong"
-         [] e.op = "max" -> IF r = (IF Cmp(a, b) >= 0 THEN a ELSE b) THEN "" ELSE "wrong"
-         [] e.op = "min" -> IF r = (IF Cmp(a, b) <= 0 THEN a ELSE b) THEN "" ELSE "wrong"
-         [] e.op = "gcd" -> \* g divides both (cofactors logged) and is a combination of them (Bezout logged)
-                            IF /\ r.s >= 0 /\ Mul(r, e.ca) = a /\ Mul(r, e.cb) = b
-                               /\ Add(Mul(e.sa, a), Mul(e.sb, b)) = r THEN "" ELSE "wrong"
-         [] OTHER -> ""
-Canon(e) == IF e.st = "ok" /\ e.ty # "" /\ Check(e) = ""
-            THEN IF (e.ty = "fixnum") = IsFix(e.r) THEN "" ELSE "not-canonical" ELSE ""
+  ELSE IF e.op \in BoolOps THEN
+       (IF e.op \in {"zerop", "plusp", "minusp"}
+        THEN IF e.bool = (CASE e.op = "zerop" -> Sign(a) = 0 [] e.op = "plusp" -> Sign(a) > 0 [] e.op = "minusp" -> Sign(a) < 0)
+             THEN "" ELSE "wrong"
+        ELSE IF e.fb THEN (IF e.bool = Holds(e.op, CmpFloat(a, e.fm, e.fe)) THEN "" ELSE "wrong-vs-float")
+        ELSE IF e.bool = Holds(e.op, RCmp(a, b)) THEN "" ELSE "wrong")
+  ELSE IF ~RWell(r) \/ ~RWell(e.r2) THEN "malformed"
+  ELSE IF ~Lowest(r, e.low) THEN "not-lowest-terms"
+  ELSE IF ~TypeOK(r, e.ty) THEN "not-canonical"
+  ELSE CASE e.op = "+" -> IF REq(r, RAdd(a, b)) THEN "" ELSE "wrong"
+         [] e.op = "-" -> IF REq(r, RSub(a, b)) THEN "" ELSE "wrong"
+         [] e.op = "*" -> IF REq(r, RMul(a, b)) THEN "" ELSE "wrong"
+         [] e.op = "/" -> IF REq(r, RDiv(a, b)) THEN "" ELSE "wrong"
+         [] e.op = "1+" -> IF REq(r, RAdd(a, OfInt(One))) THEN "" ELSE "wrong"
+         [] e.op = "1-" -> IF REq(r, RSub(a, OfInt(One))) THEN "" ELSE "wrong"
+         [] e.op = "abs" -> IF r = R(Abs(a.n), a.d) THEN "" ELSE "wrong"
+         [] e.op = "max" -> IF r = (IF RCmp(a, b) >= 0 THEN a ELSE b) THEN "" ELSE "wrong"
+         [] e.op = "min" -> IF r = (IF RCmp(a, b) <= 0 THEN a ELSE b) THEN "" ELSE "wrong"
+         [] e.op \in {"floor", "ceiling", "truncate", "round"} ->
+              IF IsInt(r) /\ IsInt(e.r2) /\ DivOK(a.n, b.n, r.n, e.r2.n, e.op) THEN "" ELSE "wrong"
+         [] e.op = "mod" -> IF IsInt(r) /\ DivOK(a.n, b.n, e.q, r.n, "floor") THEN "" ELSE "wrong"
+         [] e.op = "rem" -> IF IsInt(r) /\ DivOK(a.n, b.n, e.q, r.n, "truncate") THEN "" ELSE "wrong"
+         [] e.op = "gcd" -> IF IsInt(r) /\ GcdOK(a.n, b.n, r.n, e.cert) THEN "" ELSE "wrong"
+         [] e.op = "lcm" -> \* lcm * gcd = |a*b| with the certified gcd e.q; lcm >= 0
+              IF IsInt(r) /\ r.n.s >= 0 /\ GcdOK(a.n, b.n, e.q, e.cert) /\ Mul(r.n, e.q) = Abs(Mul(a.n, b.n)) THEN "" ELSE "wrong"
+         [] e.op \in {"logand", "logior", "logxor"} -> IF IsInt(r) /\ r.n = BitOp(e.op, a.n, b.n) THEN "" ELSE "wrong"
+         [] e.op = "ash" -> \* e.k = shift count (small): left: r = a * 2^k; right: r * 2^m <= a < (r + 1) * 2^m
+              IF IsInt(r) /\ (IF e.k >= 0 THEN r.n = Mul(a.n, Pow(Two, e.k))
+                              ELSE LET p == Pow(Two, -e.k) IN Cmp(Mul(r.n, p), a.n) <= 0 /\ Cmp(a.n, Mul(Add(r.n, One), p)) < 0)
+              THEN "" ELSE "wrong"
+         [] e.op = "expt" -> IF IsInt(r) /\ r.n = Pow(a.n, e.k) THEN "" ELSE "wrong"
+         [] e.op = "isqrt" -> IF IsInt(r) /\ r.n.s >= 0 /\ Cmp(Mul(r.n, r.n), a.n) <= 0
+                                 /\ Cmp(a.n, Mul(Add(r.n, One), Add(r.n, One))) < 0 THEN "" ELSE "wrong"
+         [] OTHER -> "unknown-operator"
 Next == /\ l <= Len(E) /\ l' = l + 1 /\ seen' = seen + 1
-        /\ LET e == E[l]  c == Check(e)  k == Canon(e) IN
-           bad' = IF c = "" /\ k = "" THEN bad ELSE Append(bad, [l |-> l, t |-> e.t, why |-> IF c # "" THEN c ELSE k, op |-> e.op])
+        /\ LET e == E[l]  c == Check(e) IN
+           bad' = IF c = "" THEN bad ELSE Append(bad, [l |-> l, t |-> e.t, why |-> c, op |-> e.op])
 Done == (l = Len(E) + 1) => PrintT("RESULT" \o ToJson([bad |-> bad, checked |-> seen]))
 =============================================================================
